@@ -1,8 +1,9 @@
-(* Hyrax batch_open / batch_check (the trait defaults): complete.  Instance of the generic completeness of the default batch
-   functions with Hyrax's list-level open / check; the prover's state also carries its RNG tape. *)
+(* Hyrax batch_open / batch_check and open_combinations / check_combinations (the trait defaults): complete.  Instances of the
+   generic completeness of the default functions with Hyrax's list-level open / check; the prover's state also carries its
+   RNG tape. *)
 From Coq Require Import List Arith NArith Bool Lia.
 From PC Require Import Base.Field Base.Result Base.Poly Base.OrdMap Schemes.LC Schemes.MLPC Schemes.Hyrax Proofs.HyraxFacts
-     Schemes.DefaultBatch Proofs.DefaultBatchComplete.
+     Schemes.DefaultBatch Proofs.DefaultBatchComplete Proofs.DefaultLCComplete.
 Import ListNotations.
 
 Section HyraxBatchFacts.
@@ -22,6 +23,7 @@ Section HyraxBatchFacts.
   Definition hb_R (st : HState) (rows : list gel) : Prop := committed keylen nv (st, rows).
   Definition hb_okpt (pt : point) : Prop :=
     length pt = nv /\ length (fst (h_lr pt)) = keylen /\ length (snd (h_lr pt)) = keylen.
+  Definition hb_sim (st : list F * list F) (vst : list F) : Prop := snd st = vst.
 
   Lemma forall2_srs : forall (sts : list HState) (cs : list (list gel)), Forall2 hb_R sts cs ->
     exists srs, map fst srs = sts /\ map snd srs = cs /\ Forall (committed keylen nv) srs.
@@ -31,27 +33,50 @@ Section HyraxBatchFacts.
     - exists ((st, rows) :: srs). cbn [map fst snd]. rewrite E1, E2. repeat split. constructor; assumption.
   Qed.
 
+  Hypothesis Hk : (1 <= keylen)%nat.
+  Hypothesis Hkey : keylen = (2 ^ (nv / 2))%nat.
+
+  (* one point: Hyrax's list-level completeness in the shape the generic theorems ask for *)
+  Lemma hb_group_complete : forall its cs0 pt st vst pf st',
+    hb_okpt pt -> Forall2 hb_R its cs0 -> hb_sim st vst -> hb_open its pt st = Ok (pf, st') ->
+    exists vst', hb_check cs0 pt (map (fun it => hb_value it pt) its) pf vst = Ok (true, vst') /\ hb_sim st' vst'.
+  Proof.
+    intros its cs0 pt st vst pf st' (Hp & Ll & Lr) HF Hs Ho. unfold hb_sim in Hs. subst vst.
+    unfold hb_open in Ho.
+    destruct (h_open_list keylen pt its (fst st) (snd st)) as [[[pfs0 o1] c1]| |] eqn:Eo; try discriminate.
+    injection Ho as <- <-.
+    destruct (forall2_srs its cs0 HF) as (srs & E1 & E2 & HC). subst its cs0.
+    exists c1. split; [|reflexivity]. unfold hb_check.
+    replace (map (fun it => hb_value it pt) (map fst srs))
+      with (map (fun sr : HState * list gel => vdot (Hyrax.row_mul (hs_mat (fst sr)) keylen (fst (h_lr pt))) (snd (h_lr pt))) srs)
+      by (rewrite map_map; reflexivity).
+    exact (h_list_complete keylen nv pt srs (fst st) (snd st) pfs0 o1 c1 Hk Hp Hkey Ll Lr HC Eo).
+  Qed.
+
   Theorem hyrax_batch_complete items cs qs ev ot ch pfs ot' ch' :
-    (1 <= keylen)%nat -> keylen = (2 ^ (nv / 2))%nat ->
     maps_agree (list gel) HState hb_R (label_map items) (label_map cs) ->
     (forall pl pt labels, In (pl, (pt, labels)) (groups qs) -> hb_okpt pt /\ evals_true HState hb_value (label_map items) ev pt labels) ->
     default_batch_open HState (list HProof) (list F * list F) hb_open items qs (ot, ch) = Ok (pfs, (ot', ch')) ->
     default_batch_check (list gel) (list HProof) (list F) hb_check cs qs ev pfs ch = Ok (true, ch').
   Proof.
-    intros Hk Hkey Hm He H.
+    intros Hm He H.
     destruct (default_batch_complete_sim (list gel) HState (list HProof) (list F * list F) (list F) hb_check hb_open hb_R hb_value
-                (fun st vst => snd st = vst) hb_okpt) with (items := items) (cs := cs) (qs := qs) (ev := ev) (st := (ot, ch)) (vst := ch)
-                (pfs := pfs) (st' := (ot', ch')) as (vst' & Hc & Hs); try assumption; try reflexivity.
-    - intros its cs0 pt st vst pf st' (Hp & Ll & Lr) HF Hs Ho. cbn [snd] in Hs. subst vst.
-      unfold hb_open in Ho.
-      destruct (h_open_list keylen pt its (fst st) (snd st)) as [[[pfs0 o1] c1]| |] eqn:Eo; try discriminate.
-      injection Ho as <- <-.
-      destruct (forall2_srs its cs0 HF) as (srs & E1 & E2 & HC). subst its cs0.
-      exists c1. split; [|reflexivity]. unfold hb_check.
-      replace (map (fun it => hb_value it pt) (map fst srs))
-        with (map (fun sr : HState * list gel => vdot (Hyrax.row_mul (hs_mat (fst sr)) keylen (fst (h_lr pt))) (snd (h_lr pt))) srs)
-        by (rewrite map_map; reflexivity).
-      exact (h_list_complete keylen nv pt srs (fst st) (snd st) pfs0 o1 c1 Hk Hp Hkey Ll Lr HC Eo).
-    - cbn [snd] in Hs. subst vst'. exact Hc.
+                hb_sim hb_okpt hb_group_complete items cs qs ev (ot, ch) ch pfs (ot', ch') Hm He eq_refl H) as (vst' & Hc & Hs).
+    unfold hb_sim in Hs. cbn [snd] in Hs. subst vst'. exact Hc.
+  Qed.
+
+  Theorem hyrax_lc_complete lcs items cs eqn_qs eqn_ev ot ch pfs evs ot' ch' :
+    maps_agree (list gel) HState hb_R (label_map items) (label_map cs) ->
+    one_point_per_label eqn_qs ->
+    (forall q, In q eqn_qs -> hb_okpt (snd (snd q))) ->
+    (forall q terms, In q eqn_qs -> OrdMap.lookup N.compare (fst q) (lcs_map lcs) = Some terms ->
+        lookup_pk (fst q, snd (snd q)) eqn_ev = Some (lc_value (item_value HState hb_value (label_map items) (snd (snd q))) terms)) ->
+    default_open_combinations HState (list HProof) (list F * list F) hb_open hb_value lcs items eqn_qs (ot, ch) = Ok (pfs, evs, (ot', ch')) ->
+    default_check_combinations (list gel) (list HProof) (list F) hb_check lcs cs eqn_qs eqn_ev pfs (Some evs) ch = Ok (true, ch').
+  Proof.
+    intros Hm Ho Hok Hc H.
+    destruct (default_lc_complete_sim (list gel) HState (list HProof) (list F * list F) (list F) hb_check hb_open hb_R hb_value
+                hb_sim hb_okpt hb_group_complete lcs items cs eqn_qs eqn_ev (ot, ch) ch pfs evs (ot', ch') Hm Ho Hok Hc eq_refl H) as (vst' & Hcc & Hs).
+    unfold hb_sim in Hs. cbn [snd] in Hs. subst vst'. exact Hcc.
   Qed.
 End HyraxBatchFacts.
